@@ -49,10 +49,13 @@ Record bbox := mkbox { ixmin : Z; ixmax : Z; iymin : Z; iymax : Z }.
 Definition zslice := (Z * Z)%type.                  (* slice(start, stop) *)
 Definition slices2 := (zslice * zslice)%type.       (* (y slice, x slice) *)
 
-(* BoundingBox.get_overlap_slices(shape = (ny, nx)): (slices_large, slices_small) or None
+(* BoundingBox.get_overlap_slices(shape = (ny, nx)): (slices_large, slices_small) or None,
+   including the zero-size-image clause of the repaired code (fix C01-1)
    [copied verbatim from coq/C02_Model.v] *)
 Definition overlap_slices (b : bbox) (ny nx : Z) : option (slices2 * slices2) :=
-  if (ixmin b >=? nx) || (iymin b >=? ny) || (ixmax b <=? 0) || (iymax b <=? 0) then None
+  if (ixmin b >=? nx) || (iymin b >=? ny) || (ixmax b <=? 0) || (iymax b <=? 0)
+     || (ny <=? 0) || (nx <=? 0)     (* zero-size image *)
+  then None
   else Some (((Z.max (iymin b) 0, Z.min (iymax b) ny),
               (Z.max (ixmin b) 0, Z.min (ixmax b) nx)),
              ((Z.max (- iymin b) 0, Z.min (iymax b - iymin b) (ny - iymin b)),
@@ -307,6 +310,61 @@ Definition apstats_one : astats :=
            (fst (fst mu)) (snd (fst mu)) (snd mu) (a_box a).
 End OneAperture.
 
+(* ------------------------------------------------------------------------------------------ *)
+(* _covariance: mu_norm = moments_central / mu00, then
+       covar[det < 0] = NaN;  while det < delta^2: covar[0,0] += delta; covar[1,1] += delta   (delta = 1/12)
+   on numerators (sigx2, sigxy, sigy2) over the common denominator 12 * m00^2, where delta is m00^2
+   [regularise is copied from coq/C07_Model.v].  The exact model decides det < 0 and det < delta^2
+   exactly; the float code decides them on rounded numbers, so a case enters the comparison only if
+   every decision is at least 2^-30 (relative) away from a tie ([cov_margin_ok]).  An EXACTLY zero
+   determinant (collinear pixels) is not a tie of the model: the property-conforming answer is the
+   regularised matrix (see fixes/C16-known.json for what the float code does there). *)
+Inductive cov_out := CovNaN | CovFuel | Cov (sx2 sxy sy2 : Z).
+
+Fixpoint regularise (fuel : nat) (d2 a b c : Z) : cov_out :=
+  if a * c - b * b <? d2 * d2 then
+    match fuel with
+    | O => CovFuel
+    | S f => regularise f d2 (a + d2) b (c + d2)
+    end
+  else Cov a b c.
+Definition reg_fuel : nat := (64 * 64)%nat.
+
+Definition cov_num (m : moments6) : Z * Z * Z :=
+  (12 * (m00 m * m02 m - m01 m * m01 m), 12 * (m00 m * m11 m - m10 m * m01 m),
+   12 * (m00 m * m20 m - m10 m * m10 m)).
+Definition cov_den (m : moments6) : Z := 12 * m00 m * m00 m.
+
+Definition covariance_reg (mo : option moments6) : cov_out :=
+  match mo with
+  | None => CovNaN
+  | Some m =>
+      if m00 m =? 0 then CovNaN            (* mu / 0: NaN or +-inf entries, determinant NaN *)
+      else let '(a, b, c) := cov_num m in
+           if a * c - b * b <? 0 then CovNaN else regularise reg_fuel (m00 m * m00 m) a b c
+  end.
+
+(* |x - y| * 2^30 > scale, or the float-exact fixed point of an all-zero matrix (a = c = delta, b = 0) *)
+Fixpoint reg_margin (fuel : nat) (d2 a b c : Z) : bool :=
+  let det := a * c - b * b in
+  let sc := Z.abs (a * c) + b * b + d2 * d2 in
+  ((sc <? Z.abs (det - d2 * d2) * 2 ^ 30) || ((a =? d2) && (c =? d2) && (b =? 0))) &&
+  (if det <? d2 * d2 then
+     match fuel with O => true | S f => reg_margin f d2 (a + d2) b (c + d2) end
+   else true).
+Definition cov_margin_ok (mo : option moments6) : bool :=
+  match mo with
+  | None => true
+  | Some m =>
+      if m00 m =? 0 then true
+      else let '(a, b, c) := cov_num m in
+           let det := a * c - b * b in
+           if det =? 0 then reg_margin reg_fuel (m00 m * m00 m) a b c
+           else if Z.abs (a * c) + b * b <? Z.abs det * 2 ^ 30
+                then (if det <? 0 then true else reg_margin reg_fuel (m00 m * m00 m) a b c)
+                else false
+  end.
+
 (* local_bkg handling of __init__: None -> zeros(n); otherwise atleast_1d, length 1 or n
    (broadcast), else ValueError (None here) *)
 Definition broadcast_bkg (lb : option (list Z)) (n : nat) : option (list Z) :=
@@ -426,7 +484,8 @@ Record expected := mkexp {
   (* aperture_photometry(data - bkg_i, aperture_i, error, mask | nonfinite | clipped, method):
      aperture_sum, aperture_sum_err; aperture_i.area_overlap(same mask, method) *)
   e_phot_sum : fl; e_phot_err : fl; e_area_overlap : fl;
-  e_photmask : option (img bool) }.   (* the mask given to those calls *)
+  e_photmask : option (img bool);     (* the mask given to those calls *)
+  e_cov : option (fl * fl * fl) }.    (* covariance[0,0], [0,1], [1,1] (after regularisation); None = NaN *)
 
 Record scales := mkscales { DS : Z; WS : Z; ES : Z; lattice_sum : bool }.
 
@@ -482,6 +541,19 @@ Definition check_one (scl : scales) (sc : scene) (a : aper) (bkg : Z) (e : expec
        close_ok (e_cxx e) (r_cxx r) 1 mag md
    end) &&
   bbox_ok (r_bbox r) (e_bbox e) &&
+  (* _covariance (regularised), when no float decision is marginal *)
+  (if cov_margin_ok (r_mom r) then
+     match covariance_reg (r_mom r), e_cov e, r_mom r with
+     | CovNaN, None, _ => true
+     | CovFuel, _, _ => true
+     | Cov a b c, Some (fa, fb, fg), Some m =>
+         let md := 12 * Z.abs (m00 m * m00 m * m00 m) in
+         let mn x := 12 * mu_mag fc m + Z.abs x * Z.abs (m00 m) + md in
+         close_ok fa (Some (a, cov_den m)) 1 (mn a) md && close_ok fb (Some (b, cov_den m)) 1 (mn b) md &&
+         close_ok fg (Some (c, cov_den m)) 1 (mn c) md
+     | _, _, _ => false
+     end
+   else true) &&
   (* the reference photometry model against aperture_photometry / area_overlap *)
   (let '(ps, pv) := photometry_one_ref (a_box a) (a_Ws a) (s_ny sc) (s_nx sc) (sub_img (s_data sc) bkg)
                                        (s_err sc) (e_photmask e) in
